@@ -97,6 +97,7 @@ struct nni_socket {
 	nni_list s_dialers;   // active dialers
 	nni_list s_pipes;     // active pipes
 	nni_list s_ctxs;      // active contexts (protected by global sock_lk)
+	int      s_ctx_fini;  // contexts off the list but still being destroyed
 
 	bool s_closing; // Socket is closing
 	bool s_closed;  // Socket closed, protected by global lock
@@ -742,7 +743,7 @@ sock_shutdown(nni_sock *sock, bool device)
 	// trying to shut things down.  We wait to give it
 	// a chance to do so gracefully.
 
-	while (!nni_list_empty(&sock->s_ctxs)) {
+	while ((!nni_list_empty(&sock->s_ctxs)) || (sock->s_ctx_fini > 0)) {
 		nni_cv_wait(&sock->s_close_cv);
 	}
 	nni_mtx_unlock(&sock_lk);
@@ -804,7 +805,8 @@ sock_close(nni_sock *s, bool device)
 
 	// Wait for all other references to drop.  Note that we
 	// have a reference already (from our caller).
-	while ((s->s_ref > 1) || (!nni_list_empty(&s->s_ctxs))) {
+	while ((s->s_ref > 1) || (!nni_list_empty(&s->s_ctxs)) ||
+	    (s->s_ctx_fini > 0)) {
 		nni_cv_wait(&s->s_close_cv);
 	}
 	nni_mtx_unlock(&sock_lk);
@@ -1180,10 +1182,17 @@ nni_ctx_rele(nni_ctx *ctx)
 	// tries to avoid ID reuse.
 	nni_id_remove(&ctx_ids, ctx->c_id);
 	nni_list_remove(&sock->s_ctxs, ctx);
-	nni_cv_wake(&sock->s_close_cv);
+	// The protocol's context fini still needs the socket: a closer must
+	// not see the empty list and tear the socket down under it.
+	sock->s_ctx_fini++;
 	nni_mtx_unlock(&sock_lk);
 
 	nni_ctx_destroy(ctx);
+
+	nni_mtx_lock(&sock_lk);
+	sock->s_ctx_fini--;
+	nni_cv_wake(&sock->s_close_cv);
+	nni_mtx_unlock(&sock_lk);
 }
 
 int
